@@ -5,6 +5,7 @@ package main
 
 import (
 	"fmt"
+	"os"
 	"go/types"
 	"sort"
 	"strconv"
@@ -180,6 +181,47 @@ func (vc *VC) sortSlice(fr *frame, cc *ssa.CallCommon, args []Val, st *state) Va
 		// new[g] = old[perm(g)], perm(g) in range, perminv(perm(g)) = g ; old[g] = new[perminv(g)]
 		vc.assume(st.reach, fmt.Sprintf("(=> %s (and (<= 0 (%s %s)) (< (%s %s) %s) (= (%s (%s %s)) %s) (= (select %s %s) (select %s (%s %s)))))", in, perm, g, perm, g, n, inv, perm, g, g, newInner, g, oldInner, perm, g))
 		vc.assume(st.reach, fmt.Sprintf("(=> %s (and (<= 0 (%s %s)) (< (%s %s) %s) (= (%s (%s %s)) %s) (= (select %s %s) (select %s (%s %s)))))", in, inv, g, inv, g, n, perm, inv, g, g, oldInner, g, newInner, inv, g))
+	}
+	// Invariants of loops that have just been left hold for every value of their integer ghosts (they
+	// were proved for arbitrary ones); instantiate them at the pre-images of the ghost indices, so that
+	// element-wise facts survive the permutation. Only when nothing was written since the loop exit.
+	if fr.depth == 0 && vc.contract != nil {
+		cur := st.heap
+		for h, hx := range fr.loopExit {
+			same := len(hx) == len(cur)
+			for k, v := range hx {
+				if cur[k] != v {
+					same = false
+				}
+			}
+			if os.Getenv("GOVC_DEBUG_FRAME") != "" {
+				fmt.Fprintf(os.Stderr, "sort: loop %d same=%v (%d vs %d keys)\n", fr.loopOrds[h], same, len(hx), len(cur))
+				for k, v := range cur {
+					if hx[k] != v {
+						fmt.Fprintf(os.Stderr, "   %s: %s vs %s\n", k, hx[k], v)
+					}
+				}
+			}
+			if !same {
+				continue
+			}
+			invs := vc.loopInvariants(fr, fr.loopOrds[h])
+			for _, g := range vc.ghostByKey["Int"] {
+				for _, at := range []string{fmt.Sprintf("(%s %s)", perm, g), fmt.Sprintf("(%s %s)", inv, g)} {
+					env := vc.specEnv(fr, st, h)
+					for _, gd := range vc.contract.Ghosts {
+						if gv, ok := vc.ghosts[gd.Name]; ok && vc.S.sortOf(gv.Typ) == "Int" {
+							env.vars[gd.Name] = Val{T: at, Typ: gv.Typ}
+						}
+					}
+					for _, c := range invs {
+						if t, err := env.evalBool(c.Expr); err == nil {
+							vc.assume(st.reach, t)
+						}
+					}
+				}
+			}
+		}
 	}
 	st.heap[key] = vc.define("h", vc.heapSort[key], fmt.Sprintf("(store %s %s %s)", vc.heapGet(st.heap, key), arr, newInner))
 	vc.eng.lastSort[vc] = sortInfo{newInner: newInner, oldInner: oldInner, perm: perm, inv: inv, n: n}
